@@ -475,6 +475,9 @@ class Len(BuiltinFunctionT):
             length = len(arg.value)
         elif isinstance(arg, vy_ast.Hex):
             length = len(arg.bytes_value)
+        elif isinstance(arg, vy_ast.List):
+            # e.g. a DynArray constant
+            length = len(arg.elements)
         else:
             raise UnfoldableNode
 
@@ -490,6 +493,9 @@ class Len(BuiltinFunctionT):
         arg = Expr(node.args[0], context).ir_node
         if arg.value == "~calldata":
             return IRnode.from_list(["calldatasize"], typ=UINT256_T)
+        if arg.value == "multi":
+            # a list literal (e.g. a folded DynArray constant) is not a pointer
+            return IRnode.from_list(len(arg.args), typ=UINT256_T)
         return get_bytearray_length(arg)
 
 
@@ -2330,8 +2336,14 @@ class ABIEncode(BuiltinFunctionT):
         if method_id is not None:
             maxlen += 4
 
+        # a folded argument (e.g. a bytestring constant) can have a tighter
+        # type than the declared type `fetch_call_return` computed the bound
+        # from: size the buffer (and type the result) for the declared type
+        ret_len = self.fetch_call_return(expr).length
+        assert ret_len >= maxlen
+        maxlen = ret_len
+
         buf_t = BytesT(maxlen)
-        assert self.fetch_call_return(expr).length == maxlen
         buf = context.new_internal_variable(buf_t)
 
         ret = ["seq"]
